@@ -478,7 +478,7 @@ std::string handle1(std::vector<std::string> const &t)
     auto const r = fcppt::options::impl::is_flag(e.view());
     if (!r.has_value())
       return "none";
-    return std::string{r.get_unsafe().first.get() ? "short" : "long"} + " s:" + r.get_unsafe().second;
+    return std::string{r.get_unsafe().first.get() ? "short" : "long"} + " " + out_str(r.get_unsafe().second);
   }
   if (op == "nextarg" && t.size() == 3)
   {
